@@ -90,6 +90,16 @@ def gen_cfgs(ctx, n):
         it = ['f1'] * cfg.accum + ['s']
         cfg.ops = it + ['h:0'] + it + ['h:1'] + it * 2
         cfgs.append(cfg)
+    # directed: eval-mode passes (a validation batch) on a factor-update step, before and between the training micro-batches of
+    # an accumulation window: they are not micro-batches — the window still closes after `accumulation_steps` training passes
+    for i, accum in enumerate((2, 3, 2)):
+        cfg = kfacsim.Config(rng, world=rng.choice([1, 2]), hook=True, accum=accum)
+        cfg.hyper_changes = []
+        cfg.hyper['factor_update_steps'] = 1
+        it = ['f1'] * accum + ['s']
+        mid = ['f0'] + ['f1'] + ['f0'] * (1 + i % 2) + ['f1'] * (accum - 1) + ['s']
+        cfg.ops = it + mid + it + ['f1', 'f0'] + ['f1'] * (accum - 1) + ['s'] + it
+        cfgs.append(cfg)
     # directed: a hyper-parameter-only round trip on the live preconditioner (state without factors, default
     # compute_inverses=True) between inverse updates, while the factors are newer than the second-order data: nothing is
     # recomputed off schedule, nothing is communicated
